@@ -110,13 +110,17 @@ def main():
     for n in names(arg):
         if cmd == "validate":
             r = validate(n)
-            results.setdefault(n, {})["validation"] = r
+            key = "validation"
             print(n, "VALID" if r["valid"] else "INVALID", r)
         else:
             r = run(n, extra)
-            results.setdefault(n, {})["run"] = r
+            key = "run"
             print(n, "CAUGHT" if r["caught"] else "MISSED", json.dumps(r["checks"]))
-        json.dump(results, open(path, "w"), indent=1, sort_keys=True)
+        # merge into the file as it is now (several invocations may run side by side)
+        results = json.load(open(path)) if os.path.exists(path) else {}
+        results.setdefault(n, {})[key] = r
+        json.dump(results, open(path + ".tmp", "w"), indent=1, sort_keys=True)
+        os.replace(path + ".tmp", path)
 
 
 if __name__ == "__main__":
